@@ -175,3 +175,43 @@ Proof.
   apply andb_prop in H'. destruct H' as [H1 H2]. apply N.ltb_lt in H1. exists j'. split; auto.
   apply orb_prop in H2. destruct H2 as [H2|H2]; apply N.eqb_eq in H2; auto.
 Qed.
+
+(** scanning the arguments from index [i]: is there a TermList (which enters a scope) that is not preceded by a
+    PkgLen (which pushes a package end)? *)
+Fixpoint owe_go (n : nat) (af i : N) : bool :=
+  match n with
+  | O => false
+  | S n' => if argType af i =? aml_pArgTypeTermList then true
+            else if argType af i =? aml_pArgTypePkgLen then false
+            else owe_go n' af (i + 1)
+  end.
+Definition oweb (af i : N) : bool := owe_go (8 - N.to_nat i) af i.
+
+Lemma oweb_step af i : i < 8 ->
+  oweb af i = if argType af i =? aml_pArgTypeTermList then true
+              else if argType af i =? aml_pArgTypePkgLen then false
+              else oweb af (i + 1).
+Proof.
+  intros H. unfold oweb. replace (8 - N.to_nat i)%nat with (S (8 - N.to_nat (i + 1))) by lia. reflexivity.
+Qed.
+
+Definition ext_owe_check (op : N) : bool :=
+  match opcodeTableIndex op false with
+  | Some idx => (idx =? aml_badOpcode) ||
+                match opInfo idx with Some (_, _, af) => negb (oweb af 0) | None => true end
+  | None => true
+  end.
+
+Lemma ext_owe_ok : forallb ext_owe_check ops511 = true.
+Proof. vm_compute. reflexivity. Qed.
+
+(** in the row of every opcode that nextOpcode accepts, a TermList argument is preceded by a PkgLen argument
+    (the internal pOpIntScopeBlock row is the only one where it is not) *)
+Lemma termlist_after_pkglen op idx o fl af :
+  op <= 0x1fe -> opcodeTableIndex op false = Some idx -> idx <> aml_badOpcode -> opInfo idx = Some (o, fl, af) ->
+  oweb af 0 = false.
+Proof.
+  intros Hop Hi Hb Hr. pose proof (proj1 (forallb_forall _ _) ext_owe_ok op (In_ops511 op Hop)) as H.
+  unfold ext_owe_check in H. rewrite Hi, Hr in H. apply N.eqb_neq in Hb. rewrite Hb in H. cbn [orb] in H.
+  destruct (oweb af 0); [discriminate|reflexivity].
+Qed.
